@@ -17,7 +17,7 @@ import sys
 
 sys.path.insert(0, os.path.dirname(os.path.abspath(__file__)))
 from py2lean_types import (Unsupported, Impure, TInt, TBool, TStr, TNone, TRange, TErased, TList, TOpt,  # noqa: E402
-                           TTuple, TDict, TObj, TAbs, TExc, TUnion, TVar, INT, BOOL, STR, NONE, RANGE, ERASED,
+                           TTuple, TDict, TObj, TAbs, TExc, TUnion, TVar, THet, INT, BOOL, STR, NONE, RANGE, ERASED,
                            resolve, unify, join, coerce, proj)
 from py2lean_expr import ExprMixin, TyRef, src, indent  # noqa: E402
 from py2lean_calls import CallMixin  # noqa: E402
@@ -194,6 +194,10 @@ def translate_function(reg, fn, node, cls=None, declared_ret=None):
             env["self"] = ("self", TObj(cls.name))
         for p, t in fn.params:
             env[p] = (("()" if isinstance(t, TErased) else p), t)
+        is_gen = any(isinstance(n, (ast.Yield, ast.YieldFrom)) for n in ast.walk(node))
+        if is_gen:
+            tv = TVar()
+            env["«yield»"] = ("out_", TList(tv))
 
         def fall(env_end):
             if is_init:
@@ -209,8 +213,12 @@ def translate_function(reg, fn, node, cls=None, declared_ret=None):
                 if decl is not None and [n for n, _, _ in out] != list(decl):
                     raise Unsupported("constructor assigns {} but {} were declared".format([n for n, _, _ in out], list(decl)))
                 return tr.ret(body)
+            if is_gen:
+                return tr.finish_return(*env_end["«yield»"])
             return tr.finish_return("()", NONE)
         code = tr.block(node.body, env, fall)
+        if is_gen:
+            code = "let out_ := ([] : List {})\n".format(TyRef(tv)) + code
         return tr, code
     try:
         tr, code = attempt(True)
